@@ -14,8 +14,8 @@ pub struct C12;
 
 /// Versions in non-decreasing Debian order (epochs, revisions, '~'); RANK gives the order, equal ranks are equal
 /// versions under Debian ordering (an absent epoch is epoch 0, an absent revision sorts as revision 0).
-pub const POOL: [&str; 11] = ["0.9", "1.0~rc1", "1.0", "0:1.0", "1.0-1", "1.0-1+b1", "1.1", "0:1.1", "1:0.1", "1:0.1-0", "2:0~"];
-pub const RANK: [u8; 11] = [0, 1, 2, 2, 3, 4, 5, 5, 6, 6, 7];
+pub const POOL: [&str; 14] = ["0.9", "1.0~rc1", "1.0-0~ppa1", "1.0", "0:1.0", "1.0-0", "1.0-1~bpo12+1", "1.0-1", "1.0-1+b1", "1.1", "0:1.1", "1:0.1", "1:0.1-0", "2:0~"];
+pub const RANK: [u8; 14] = [0, 1, 2, 3, 3, 3, 4, 5, 6, 7, 7, 8, 8, 9];
 pub const PKGS: [&str; 3] = ["a", "b", "c"];
 
 #[derive(Debug, Clone, PartialEq, Eq, Hash)]
@@ -141,11 +141,11 @@ fn check(case: &Case) -> CheckResult {
 }
 
 // ---- enumeration
-const TABLE1: u64 = (1 + 5 * 11) * 12; // one alternative: constraint x installed(a)
+const TABLE1: u64 = (1 + 5 * POOL.len() as u64) * (1 + POOL.len() as u64); // one alternative: constraint x installed(a)
 fn alt8(i: usize) -> Alt {
     // pkg in {a,b} x constraint in {none, >= v3, << v3, = v3}
     let pkg = i % 2;
-    let cons = [None, Some((Op::Ge, 4)), Some((Op::Lt, 4)), Some((Op::Eq, 4))][i / 2].clone();
+    let cons = [None, Some((Op::Ge, 7)), Some((Op::Lt, 7)), Some((Op::Eq, 7))][i / 2].clone();
     Alt { pkg, cons }
 }
 fn entry72(i: usize) -> Vec<Alt> {
@@ -186,15 +186,15 @@ impl PropImpl for C12 {
     }
     fn from_enum(&self, _ctx: &mut Ctx, _tier: Tier, space: usize, index: u64) -> Case {
         if space == 0 {
-            let c = (index / 12) as usize;
-            let inst = (index % 12) as usize;
+            let c = (index / (1 + POOL.len() as u64)) as usize;
+            let inst = (index % (1 + POOL.len() as u64)) as usize;
             let cons = if c == 0 { None } else { Some((Op::ALL[(c - 1) % 5], (c - 1) / 5)) };
             Case { entries: vec![vec![Alt { pkg: 0, cons }]], installed: [if inst == 0 { None } else { Some(inst - 1) }, None, None], origin: "table" }
         } else {
             let asg = (index % 16) as usize;
             let f = (index / 16) as usize;
             let entries = if f < 72 { vec![entry72(f)] } else { vec![entry72((f - 72) / 72), entry72((f - 72) % 72)] };
-            let lvl = |x: usize| [None, Some(3), Some(4), Some(5)][x];
+            let lvl = |x: usize| [None, Some(3), Some(7), Some(9)][x];
             Case { entries, installed: [lvl(asg % 4), lvl(asg / 4), None], origin: "nesting" }
         }
     }
